@@ -57,6 +57,16 @@ def check_term(acc, term, styles=("min", "full"), aliases=(None, "al")):
             SC.judge(acc, "sqlite", term, tx, cols, got, DEFECT_MODELS, {"alias": al, "sql": sql, "cols": list(cols)})
 
 
+class _SqliteBackend(SC.Backend):
+    name = "sqlite"
+    cap = CAP
+    defect_models = DEFECT_MODELS
+    variants = [None, "al"]
+
+    def run(self, text, cols, variant):
+        return run_filter(text, cols, variant)[0]
+
+
 def enum_for(which):
     if which not in _ENUM:
         sigs = typed.signatures(CAP)
@@ -124,6 +134,9 @@ def run(ctx):
             got, sql = ("EXC", type(e).__name__, str(e)[:200]), None
         SC.judge(ctx, "sqlite", t, tx, cols, got, DEFECT_MODELS, {"alias": None, "sql": sql, "cols": list(cols), "visitor": "one shared instance"})
     ctx.layer("history-forward-reverse", filters=4 * len(hist), exhaustive=True, note="fresh visitor per filter, then one shared visitor instance")
+    nd = SC.deep_layer(ctx, _SqliteBackend(), (4, 6) if ctx.quick else (4, 6, 8))
+    ctx.layer("pumped-towers", filters=nd, depths=[4, 6] if ctx.quick else [4, 6, 8], exhaustive=True,
+              note="every self-composable constructor and every ordered pair of them, stacked on the left and right spine; long in-lists and and/or chains")
     strs = SC.sigma_strings(2)
     ctx.pmap(_string_unit, [strs[i::32] for i in range(32)])
     ctx.layer("string-literals", strings=len(strs), positions=len(SC.string_position_terms(T.Str("x"), CAP)), exhaustive=True)
